@@ -4,6 +4,7 @@ import (
 	"fmt"
 	"go/types"
 	"sort"
+	"strings"
 
 	"golang.org/x/tools/go/ssa"
 
@@ -193,4 +194,194 @@ func fieldOwnerName(f *types.Var) string {
 		return f.Pkg().Name()
 	}
 	return "?"
+}
+
+const selfConcurrentDoc = "a method that runs on a goroutine its own type spawned, and is also called from elsewhere, can run twice at once on one receiver: such a method does not write a plain field of its receiver outside a lock (sync.Once, a mutex, an atomic or a channel has to carry the once-only / hand-over logic); a bool flag checked and set in a 'close once' helper that both a timer goroutine and a callback call is a data race and a double close"
+
+// selfConcurrent: see selfConcurrentDoc. For every method m of a module type T
+// that is called inside a function literal started with `go` in a method of T
+// (or started itself: `go t.m()`) and that has another call site outside such
+// literals, every store to a field of m's receiver made with an empty must-held
+// lockset is reported.
+func (c *Ctx) selfConcurrent(minMethods int) {
+	g := c.graph()
+	res := c.lockResults()
+	recvType := func(fn *ssa.Function) *types.Named {
+		if fn == nil || fn.Signature.Recv() == nil {
+			return nil
+		}
+		t := fn.Signature.Recv().Type()
+		if p, ok := t.(*types.Pointer); ok {
+			t = p.Elem()
+		}
+		n, _ := t.(*types.Named)
+		return n
+	}
+	inSpawn := map[*ssa.Function]bool{}              // literals (and their nested literals) started by go inside a method
+	spawnedOf := map[*ssa.Function][]*ssa.Function{} // method -> spawning literals that call it
+	for _, gs := range g.goSites {
+		host := outermost(gs.fn)
+		T := recvType(host)
+		if T == nil {
+			continue
+		}
+		for _, t := range gs.targets {
+			if t.Parent() == nil {
+				// go t.m(): m itself is the spawned function
+				if recvType(t) != nil && recvType(t).Obj() == T.Obj() {
+					spawnedOf[t] = append(spawnedOf[t], gs.fn)
+				}
+				continue
+			}
+			for _, lit := range ir.WithClosures(t) {
+				inSpawn[lit] = true
+				ir.Instrs(lit, func(in ssa.Instruction) {
+					cc := ir.CallOf(in)
+					if cc == nil {
+						return
+					}
+					callee := cc.StaticCallee()
+					for _, m := range c.srcFunc(callee) {
+						if rt := recvType(m); rt != nil && rt.Obj() == T.Obj() {
+							spawnedOf[m] = append(spawnedOf[m], lit)
+						}
+					}
+				})
+			}
+		}
+	}
+	var methods []*ssa.Function
+	for m := range spawnedOf {
+		methods = append(methods, m)
+	}
+	sort.Slice(methods, func(i, j int) bool { return c.nm(methods[i]) < c.nm(methods[j]) })
+	checked := 0
+	for _, m := range methods {
+		// another call site outside spawned literals
+		other := ""
+		for _, fn := range c.P.Funcs {
+			if inSpawn[fn] || other != "" {
+				continue
+			}
+			fn := fn
+			ir.Instrs(fn, func(in ssa.Instruction) {
+				if _, isGo := in.(*ssa.Go); isGo {
+					return
+				}
+				cc := ir.CallOf(in)
+				if cc == nil || other != "" {
+					return
+				}
+				for _, x := range c.srcFunc(cc.StaticCallee()) {
+					if x == m {
+						other = c.at(in) + " in " + c.nm(fn)
+					}
+				}
+			})
+		}
+		if other == "" {
+			continue
+		}
+		checked++
+		construct := "self-concurrent method writes no plain receiver field | " + c.nm(m)
+		var bad []string
+		for _, f := range ir.WithClosures(m) {
+			lr := res[f]
+			ir.Instrs(f, func(in ssa.Instruction) {
+				st, ok := in.(*ssa.Store)
+				if !ok {
+					return
+				}
+				fa, ok := st.Addr.(*ssa.FieldAddr)
+				if !ok {
+					return
+				}
+				if len(m.Params) == 0 || !ir.DerivesFrom(fa.X, func(x ssa.Value) bool {
+					if x == ssa.Value(m.Params[0]) {
+						return true
+					}
+					// the receiver captured by a literal of m
+					fv, isFV := x.(*ssa.FreeVar)
+					return isFV && fv.Name() == m.Params[0].Name()
+				}) {
+					return
+				}
+				if lr != nil && len(lr.mustHold[in]) > 0 {
+					return
+				}
+				bad = append(bad, fmt.Sprintf("%s is written at %s with no lock held", c.on(ir.FieldOfAddr(fa)), c.at(in)))
+			})
+		}
+		sort.Strings(bad)
+		c.verdict(len(bad) == 0, construct, c.P.Pos(m.Pos()), "runs on a goroutine spawned by "+c.nm(spawnedOf[m][0])+" and is also called at "+other+"; it writes no receiver field outside a lock", join(bad)+" (the method runs on a goroutine spawned by "+c.nm(spawnedOf[m][0])+" and is also called at "+other+")")
+	}
+	if checked < minMethods {
+		c.undecided("self-concurrent methods | floor", "", fmt.Sprintf("found %d method(s) that run both on a goroutine of their own type and from elsewhere, need %d", checked, minMethods))
+	}
+}
+
+const waitGroupGrowthDoc = "a WaitGroup that a Stop waits on is raised only where a count is already held: sync.WaitGroup requires every Add that may start from zero to happen before the Wait; the Adds of such a group sit in constructors and Start methods (before anything runs), in goroutines the group itself counts, or on an object made in the same function - not in a function an API user can call at any time: there the Add can start from zero while Stop is in Wait (a data race on the group and, depending on the interleaving, the 'WaitGroup misuse' panic)"
+
+// waitGroupGrowth: see waitGroupGrowthDoc.
+func (c *Ctx) waitGroupGrowth(minAdds int) {
+	g := c.graph()
+	_ = g
+	waited := map[string]bool{}
+	for _, fn := range c.P.Funcs {
+		ir.Instrs(fn, func(in ssa.Instruction) {
+			if k, name, ok := c.wgKey(in); ok && name == "Wait" && strings.HasPrefix(k, "field:") {
+				waited[k] = true
+			}
+		})
+	}
+	// functions an API user can reach synchronously at any time
+	lifecycle := func(fn *ssa.Function) bool {
+		n := fn.Name()
+		return strings.HasPrefix(n, "New") || strings.HasPrefix(n, "new") || n == "Start" || n == "start"
+	}
+	var entries []*ssa.Function
+	for _, fn := range c.P.Funcs {
+		if fn.Parent() != nil || fn.Object() == nil || !fn.Object().Exported() || lifecycle(fn) {
+			continue
+		}
+		entries = append(entries, fn)
+	}
+	reach := c.reachable(entries...)
+	// ... where every caller of a lifecycle function is itself lifecycle code
+	adds := 0
+	var bad []string
+	var sites []ssa.Instruction
+	for _, fn := range c.P.Funcs {
+		fn := fn
+		ir.Instrs(fn, func(in ssa.Instruction) {
+			k, name, ok := c.wgKey(in)
+			if !ok || name != "Add" || !waited[k] {
+				return
+			}
+			adds++
+			sites = append(sites, in)
+			if !reach[fn] || lifecycle(outermost(fn)) {
+				return
+			}
+			// an object made in this very function is not yet shared
+			fresh := ir.DerivesFrom(ir.CallOf(in).Args[0], func(x ssa.Value) bool {
+				a, isA := x.(*ssa.Alloc)
+				return isA && a.Heap
+			})
+			if fresh {
+				return
+			}
+			// which entry reaches it (for the report)
+			via := ""
+			for _, e := range entries {
+				if c.reachable(e)[fn] {
+					via = c.nm(e)
+					break
+				}
+			}
+			bad = append(bad, fmt.Sprintf("%s is raised at %s in %s, which an API user reaches through %s at any time", k, c.at(in), c.nm(fn), via))
+		})
+	}
+	sort.Strings(bad)
+	c.verdict(len(bad) == 0 && adds >= minAdds, "module | waited-for WaitGroups are raised only in lifecycle code or under a held count", "", fmt.Sprintf("%d Add site(s) on %d waited-for group(s)", adds, len(waited)), join(bad)+fmt.Sprintf(" (%d Add sites found, %d tabled)", adds, minAdds), c.ats(sites)...)
 }
